@@ -373,11 +373,17 @@ def do_check(prop, pid, tier, seed, a, scratch, t0):
     if out_of_scope:
         assumptions.append("%d obligations of shared functions state another property's claim and are decided by that property's check, not here: %s" % (len(out_of_scope), "; ".join(sorted(out_of_scope))[:1500]))
     ev = dict(property_id=pid, tier=tier, seed=seed, level=level, coverage=cov, assumptions=assumptions, wall_s=round(wall, 2), violations=len(vio_lines))
-    os.makedirs(os.path.join(ROOT, "evidence"), exist_ok=True)
-    with open(os.path.join(ROOT, "evidence", pid + ".json"), "w") as f:
-        json.dump(ev, f, indent=1, default=str)
+    if os.environ.get("PYVC_REPO"):
+        # a run against a scratch copy (seeded change, self-test) is not evidence about /repo: never overwrite the evidence files with it
+        print("(run against %s: evidence/%s.json left untouched)" % (os.environ["PYVC_REPO"], pid))
+    else:
+        os.makedirs(os.path.join(ROOT, "evidence"), exist_ok=True)
+        with open(os.path.join(ROOT, "evidence", pid + ".json"), "w") as f:
+            json.dump(ev, f, indent=1, default=str)
 
-    if a.rebaseline:
+    if a.rebaseline and os.environ.get("PYVC_REPO"):
+        print("NOT rebaselining: PYVC_REPO points at a scratch copy", file=sys.stderr)
+    elif a.rebaseline:
         if errors or vio_lines or undecided:
             print("NOT rebaselining: the run is not clean", file=sys.stderr)
         else:
